@@ -10,6 +10,11 @@ Interpretation choices of the oracle (all taken from the statement, stated here 
     pixels it is interpolated from does, and its centre "is masked invalid" when one of the two pixels the centre
     sample is interpolated from is;
   * zero variance = all samples of a window are equal (exact test on the integer-valued radiometry);
+  * per-pixel [min,max] grids are float32 rasters and need not lie on the sampling step (min=-1.3, max=1.7 ...): a sampled
+    disparity d is outside the pixel's interval exactly when d < min(r,c) or d > max(r,c) (comparison of the real
+    numbers).  For integer-valued grids the disparity axis must be int(min) .. int(max) by steps of 1/subpix; for
+    fractional grids the statement does not say which samples the axis holds, so the oracle is evaluated on the axis the
+    real cost volume reports (cv.coords['disp']), only requiring its samples to be increasing multiples of 1/subpix;
   * cmax: the statement only says it "matches the measure": checked as  max finite cost <= cmax <= trivial bound
     (w^2 * range for sad, w^2 * range^2 for ssd, w^2 for census, == 1 for zncc).
 """
@@ -26,6 +31,7 @@ VALID, NODATA, INVALID = 0, 1, 2
 ZNCC_TOL = 1e-4
 METHOD_WINDOWS = [(m, w) for m in ("sad", "ssd", "zncc") for w in (1, 3, 5)] + [("census", 3), ("census", 5)]
 INTERVALS = [(a, b) for a in range(-3, 4) for b in range(a, 4)]  # the 28 intervals within [-3, 3]
+PER_COMBO = {"quick": 12, "thorough": 150}  # cases per (measure, window, subpix, band) combination
 
 
 # ----------------------------------------------------------------------------------------------- real code driver
@@ -98,9 +104,16 @@ def planes_of(dlo, dhi, subpix):
     return [dlo + k / float(subpix) for k in range((dhi - dlo) * subpix + 1)]
 
 
-def oracle_volume(L, R, mL, mR, gmin, gmax, method, w, subpix):
+def is_integer_grid(g):
+    g = np.asarray(g, dtype=np.float64)
+    return bool((g == np.round(g)).all())
+
+
+def oracle_volume(L, R, mL, mR, gmin, gmax, method, w, subpix, planes=None):
     """L, R: 2D arrays of the selected band; mL/mR: 2D masks over {VALID,NODATA,INVALID} or None;
-    gmin/gmax: 2D integer-valued grids.  Returns (planes, cost[ny,nx,nd] float64 with NaN, cause[ny,nx,nd] of str|None)"""
+    gmin/gmax: 2D grids (any real values, min <= max); planes: the sampled disparities (multiples of 1/subpix), default:
+    int(min gmin) .. int(max gmax).  Returns (planes, cost[ny,nx,nd] float64 with NaN, cause[ny,nx,nd] of str|None)"""
+    gmin, gmax = np.asarray(gmin, dtype=np.float64), np.asarray(gmax, dtype=np.float64)
     L = np.asarray(L, dtype=np.float64)
     R = np.asarray(R, dtype=np.float64)
     ny, nx = L.shape
@@ -109,18 +122,21 @@ def oracle_volume(L, R, mL, mR, gmin, gmax, method, w, subpix):
         mL = np.full((ny, nx), VALID)
     if mR is None:
         mR = np.full((ny, nx), VALID)
-    dlo, dhi = int(np.min(gmin)), int(np.max(gmax))
-    planes = planes_of(dlo, dhi, subpix)
+    if planes is None:
+        planes = planes_of(int(np.min(gmin)), int(np.max(gmax)), subpix)
+    planes = [float(d) for d in planes]
     cost = np.full((ny, nx, len(planes)), np.nan)
     cause = np.full((ny, nx, len(planes)), None, dtype=object)
     for k, d in enumerate(planes):
-        whole, frac = divmod(dlo * subpix + k, subpix)  # d = whole + frac/subpix, 0 <= frac < subpix
+        whole, frac = divmod(int(round(d * subpix)), subpix)  # d = whole + frac/subpix, 0 <= frac < subpix
         t = frac / float(subpix)
         for r in range(ny):
             for c in range(nx):
                 why = None
-                if d < gmin[r, c] or d > gmax[r, c]:
-                    why = "outside-pixel-interval"
+                if d < gmin[r, c]:
+                    why = "outside-pixel-interval" if gmin[r, c] == round(gmin[r, c]) else "below-fractional-pixel-min"
+                elif d > gmax[r, c]:
+                    why = "outside-pixel-interval" if gmax[r, c] == round(gmax[r, c]) else "above-fractional-pixel-max"
                 elif r - o < 0 or r + o > ny - 1 or c - o < 0 or c + o > nx - 1:
                     why = "left-window-outside"
                 else:
@@ -174,9 +190,9 @@ def build(case):
         a, b = case["interval"]
         disp = (int(a), int(b))
         gmin, gmax = np.full(L.shape[-2:], int(a)), np.full(L.shape[-2:], int(b))
-    else:
-        gmin, gmax = np.asarray(case["gmin"]).astype(int), np.asarray(case["gmax"]).astype(int)
-        disp = (gmin.astype(np.float32), gmax.astype(np.float32))
+    else:  # the grids are float32 rasters; the oracle sees exactly the values the real code is given
+        gmin, gmax = np.asarray(case["gmin"], dtype=np.float32), np.asarray(case["gmax"], dtype=np.float32)
+        disp = (gmin, gmax)
     left = make_dataset(L, mL, disp, bands)
     right = make_dataset(R, mR, None, bands)
     mc_cfg = {"matching_cost_method": case["method"], "window_size": int(case["window"]), "subpix": int(case["subpix"])}
@@ -193,19 +209,33 @@ def evaluate(case):
     """run the real chain and the oracle; return list of (clause, witness_class, message, cell) and n finite oracle cells"""
     left, right, mc_cfg, (Lb, Rb, mL, mR, gmin, gmax) = build(case)
     method, w, subpix = case["method"], int(case["window"]), int(case["subpix"])
-    planes, ocost, cause = oracle_volume(Lb, Rb, mL, mR, gmin, gmax, method, w, subpix)
-    nfinite = int(np.isfinite(ocost).sum())
+    fractional = not (is_integer_grid(gmin) and is_integer_grid(gmax))
     kind = ("band" if case.get("band") else "mono")
     out = []
     try:
         cv = real_chain(left, right, mc_cfg)
     except Exception as e:  # the statement quantifies over every image pair / configuration of the domain
+        nfinite = int(np.isfinite(oracle_volume(Lb, Rb, mL, mR, gmin, gmax, method, w, subpix)[1]).sum())
         wclass = "%s-%s%s" % (type(e).__name__, method, "-image-smaller-than-window" if min(Lb.shape) < w else "")
         out.append(("C02.total", wclass, "real chain raised %s: %s  (window %d, subpix %d, %s, image %dx%d)"
                     % (type(e).__name__, str(e)[:200], w, subpix, "band " + case["band"] if case.get("band") else "mono", Lb.shape[0], Lb.shape[1]), None))
         return out, nfinite
     real = cv["cost_volume"].data
     rdisp = np.asarray(cv.coords["disp"].data, dtype=np.float64)
+    if fractional:
+        # the statement does not say which samples exist for grids off the sampling step: the oracle follows the reported
+        # axis, which must only be made of increasing multiples of 1/subpix ("integer, or multiples of 1/subpix")
+        scaled = rdisp * subpix
+        if rdisp.ndim != 1 or rdisp.size == 0 or not np.array_equal(scaled, np.round(scaled)) or not (np.diff(rdisp) > 0).all():
+            planes = planes_of(int(np.min(gmin)), int(np.max(gmax)), subpix)
+            nfinite = int(np.isfinite(oracle_volume(Lb, Rb, mL, mR, gmin, gmax, method, w, subpix, planes)[1]).sum())
+            out.append(("C02.planes", "fractional-grids-subpix%d" % subpix,
+                        "disp axis %s is not made of increasing multiples of 1/%d" % (rdisp.tolist(), subpix), None))
+            return out, nfinite
+        planes, ocost, cause = oracle_volume(Lb, Rb, mL, mR, gmin, gmax, method, w, subpix, rdisp.tolist())
+    else:
+        planes, ocost, cause = oracle_volume(Lb, Rb, mL, mR, gmin, gmax, method, w, subpix)
+    nfinite = int(np.isfinite(ocost).sum())
     if rdisp.shape != (len(planes),) or not np.array_equal(rdisp, np.array(planes)):
         out.append(("C02.planes", "subpix%d" % subpix, "disp axis %s, expected %s" % (rdisp.tolist(), planes), None))
         return out, nfinite
@@ -251,7 +281,7 @@ def _mask(rng, shape, p):
     return rng.choice([VALID, NODATA, INVALID], size=shape, p=[1 - 2 * p, p, p]).astype(int)
 
 
-def gen_case(rng, method, w, subpix, bandmode, interval, rnd=99):
+def gen_case(rng, method, w, subpix, bandmode, interval, rnd=99, fkind=0):
     ny, nx = int(rng.integers(4, 7)), int(rng.integers(7, 10))
     if rnd < 2:  # smallest images first: 4x7 then 5x7
         ny, nx = 4 + rnd, 7
@@ -274,7 +304,9 @@ def gen_case(rng, method, w, subpix, bandmode, interval, rnd=99):
         case["msk_left"] = _mask(rng, (ny, nx), p).tolist()
     if mm in (2, 3):
         case["msk_right"] = _mask(rng, (ny, nx), p).tolist()
-    if interval is not None:
+    if interval == "frac":
+        case["gmin"], case["gmax"] = fractional_grids(rng, ny, nx, fkind)
+    elif interval is not None:
         case["interval"] = list(interval)
     else:
         a = rng.integers(-3, 4, size=(ny, nx))
@@ -283,17 +315,66 @@ def gen_case(rng, method, w, subpix, bandmode, interval, rnd=99):
     return case
 
 
+N_FRACTIONAL_KINDS = 7
+
+
+def _off_step(rng, size):
+    """values within [-3.1, 3.1] that are multiples of neither 1, 1/2 nor 1/4: n/4 +- {0.05, 0.1} (then rounded to float32)"""
+    return rng.integers(-12, 13, size=size) / 4.0 + rng.choice([-0.1, -0.05, 0.05, 0.1], size=size)
+
+
+def fractional_grids(rng, ny, nx, fkind):
+    """per-pixel [min,max] float32 grids with values off the sampling step of every subpix in {1,2,4}; min <= max everywhere
+    (a pixel's interval may hold no sample at all, e.g. [0.3, 0.45]).  Returned as lists of the exact float32 values."""
+    shape = (ny, nx)
+    fkind %= N_FRACTIONAL_KINDS
+    if fkind == 0:  # the same off-step interval for every pixel, straddling 0
+        gmin, gmax = np.full(shape, -1.3), np.full(shape, 1.7)
+    elif fkind == 1:  # the same off-step interval for every pixel, on one side of 0 (int() truncates towards 0)
+        a, b = _off_step(rng, 2).tolist()
+        sign = 1.0 if rng.random() < 0.5 else -1.0
+        lo, hi = sorted([sign * (abs(a) % 1.0), sign * (abs(b) % 1.0 + 2.0)])  # +-[0.x, 2.y]
+        gmin, gmax = np.full(shape, lo), np.full(shape, hi)
+    elif fkind == 2:  # both off-step, per pixel
+        a, b = _off_step(rng, shape), _off_step(rng, shape)
+        gmin, gmax = np.minimum(a, b), np.maximum(a, b)
+    elif fkind == 3:  # fractional min, integer max
+        gmin = _off_step(rng, shape)
+        gmax = np.maximum(np.ceil(gmin), np.minimum(np.ceil(gmin) + rng.integers(0, 3, size=shape), 3))
+    elif fkind == 4:  # integer min, fractional max
+        gmax = _off_step(rng, shape)
+        gmin = np.minimum(np.floor(gmax), np.maximum(np.floor(gmax) - rng.integers(0, 3, size=shape), -3))
+    elif fkind == 5:  # every bound independently: integer, on a 1/2 or 1/4 step, or off-step
+        a = np.where(rng.random(shape) < 0.5, rng.integers(-12, 13, size=shape) / 4.0, _off_step(rng, shape))
+        b = np.where(rng.random(shape) < 0.5, rng.integers(-12, 13, size=shape) / 4.0, _off_step(rng, shape))
+        gmin, gmax = np.minimum(a, b), np.maximum(a, b)
+    else:  # column-wise intervals one sampling step wide or narrower around random centres
+        c = rng.integers(-8, 9, size=(1, nx)) / 4.0
+        half = rng.choice([0.05, 0.3, 0.55, 0.8, 1.3], size=(1, nx))
+        gmin, gmax = np.repeat(c - half, ny, 0), np.repeat(c + half, ny, 0)
+    gmin, gmax = gmin.astype(np.float32), gmax.astype(np.float32)
+    assert (gmin <= gmax).all()
+    return gmin.tolist(), gmax.tolist()
+
+
 def enumerate_domain(tier, seed):
     rng = np.random.default_rng(seed)
-    per_combo = 12 if tier == "quick" else 150
+    per_combo = PER_COMBO[tier]
     combos = [(m, w, s, b) for (m, w) in METHOD_WINDOWS for s in (1, 2, 4) for b in ("mono", "r", "g")]
-    it = 0
+    n_scalar = n_frac = 0
     for n in range(per_combo):
-        for (m, w, s, b) in combos:
-            # two thirds scalar intervals (cycling over all 28 of [-3,3]), one third per-pixel grids
-            interval = INTERVALS[(it + n) % len(INTERVALS)] if (it + n) % 3 != 2 else None
-            it += 1
-            yield gen_case(rng, m, w, s, b, interval, n)
+        for idx, (m, w, s, b) in enumerate(combos):
+            # by turns for every combination: scalar interval (cycling over all 28 of [-3,3]) twice, integer per-pixel grids,
+            # fractional per-pixel grids (cycling over the N_FRACTIONAL_KINDS kinds of fractional_grids)
+            turn = (idx + n + seed) % 4
+            if turn == 2:
+                yield gen_case(rng, m, w, s, b, None, n)
+            elif turn == 3:
+                yield gen_case(rng, m, w, s, b, "frac", n, fkind=n_frac)
+                n_frac += 1
+            else:
+                yield gen_case(rng, m, w, s, b, INTERVALS[n_scalar % len(INTERVALS)], n)
+                n_scalar += 1
 
 
 def case_key(case):
@@ -305,13 +386,15 @@ def run(tier, seed):
     rec.functions.update(REAL_FUNCTIONS)
     budget = 72 if tier == "quick" else 1000  # wall seconds, import of pandora included
     t0 = time.time()
-    done = 0
+    done = nfrac = 0
     for case in enumerate_domain(tier, seed):
         if time.time() - t0 > budget:
             break
         viols, nfinite = evaluate(case)
         done += 1
+        nfrac += int(case["gmin"] is not None and not (is_integer_grid(case["gmin"]) and is_integer_grid(case["gmax"])))
         small = {k: case[k] for k in ("method", "window", "subpix", "band", "interval")}
+        small["grids"] = None if case["gmin"] is None else ("integer" if is_integer_grid(case["gmin"]) and is_integer_grid(case["gmax"]) else "fractional")
         small["shape"] = list(np.shape(case["left"]))
         small["computable_cells"] = nfinite
         rec.case(key=case_key(case), nontrivial=nfinite > 0, sample=small)
@@ -323,12 +406,19 @@ def run(tier, seed):
         bound="seeded-random image pairs of 4..6 rows x 7..9 columns (mono, or 2 bands 'r','g' with either band selected) over "
               "{0,1,3} or integers 0..15 (with flat patches in 3 cases out of 10), masks absent/left/right/both over {0 valid,1 nodata,2 invalid}, "
               "measures sad/ssd/zncc x windows {1,3,5} and census x {3,5}, subpix {1,2,4}, all 28 scalar intervals within [-3,3] "
-              "(2/3 of the cases) or random per-pixel grids min<=max within [-3,3] (1/3); %d cases per (measure,window,subpix,band) "
-              "combination requested, %d cases run" % (12 if tier == "quick" else 150, done),
-        rule="cases are drawn with np.random.default_rng(seed), round-robin over the 99 (measure,window,subpix,band) combinations; every cell "
-             "(row,col,disparity plane) of the real cost volume is compared with the naive oracle: exactly for sad/ssd/census (integer radiometry, "
-             "costs are multiples of 1/16), |diff|<=1e-4 for zncc; NaN pattern compared exactly; distinct = distinct full input (images, masks, "
-             "interval/grids, configuration); non-trivial = the oracle has at least one computable (finite) cell")
+              "(1/2 of the cases), random integer per-pixel grids min<=max within [-3,3] (1/4), or float32 per-pixel grids min<=max within "
+              "[-3.3,3.3] whose values are off the sampling step (1/4; %d kinds by turns: constant [-1.3,1.7]; constant +-[0.x,2.y]; both "
+              "bounds n/4 +- {0.05,0.1} per pixel; fractional min with integer max; integer min with fractional max; each bound independently "
+              "on a 1/4 step or off-step; column-wise intervals narrower than / about one step); %d cases per (measure,window,subpix,band) "
+              "combination requested, %d cases run of which %d with fractional grids" % (N_FRACTIONAL_KINDS, PER_COMBO[tier], done, nfrac),
+        rule="cases are drawn with np.random.default_rng(seed), round-robin over the 99 (measure,window,subpix,band) combinations, each "
+             "combination taking by turns scalar, scalar, integer grids, fractional grids; every cell (row,col,disparity plane) of the real "
+             "cost volume is compared with the naive oracle: exactly for sad/ssd/census (integer radiometry, costs are multiples of 1/16), "
+             "|diff|<=1e-4 for zncc; NaN pattern compared exactly (a sample d is outside a pixel's interval iff d < min(r,c) or d > max(r,c), "
+             "real-number comparison with the float32 grid values).  Disparity axis: must be int(min)..int(max) by 1/subpix for scalar "
+             "intervals and integer grids; for fractional grids the oracle is evaluated on the axis the real volume reports (only required "
+             "to be increasing multiples of 1/subpix).  distinct = distinct full input (images, masks, interval/grids, configuration); "
+             "non-trivial = the oracle has at least one computable (finite) cell")
 
 
 def replay(witness):
